@@ -66,7 +66,11 @@ def havoc(I, st, spec, node):
             sref = st.env.get('self')
             o = st.heap[sref.addr]
             cur = o.fields.get(fld)
-            t = types.get(nm) or shape_type(I, st, cur)
+            decl = None
+            cfun = C.REGISTRY.get(st.env.get('__func__'))
+            if cfun is not None and cfun.self_type is not None:
+                decl = cfun.self_type.fields.get(fld)
+            t = types.get(nm) or decl or shape_type(I, st, cur)
             if t is None:
                 raise EngineLimit('cannot havoc %s: give its type' % nm)
             outs = list(C.fresh_value(I, st, t, 'lp_' + fld, lazy=True))
@@ -287,7 +291,24 @@ def for_with_invariant(I, node, spec, it, st):
     scope = _scope(I, st)
     invs = spec.get('invariant', [])
     idx = spec.get('index', '__k')
-    n, elem = iter_model(I, st, it)
+    if spec.get('elements') is not None:
+        # iteration over an abstract source (e.g. a generator object under contract): unknown number of
+        # items, each an arbitrary value of the declared type satisfying `elements_assume`
+        n = I.fresh('n_items', z3.IntSort())
+        st.pc.append(n >= 0)
+        ety = spec['elements']
+        st.ghost = dict(st.ghost)
+        if st.ghost.get('__yielded__') is not None:
+            st.ghost['__yielded__'] = 'abstract'
+
+        def elem(k, _cache={}):
+            key = k.get_id() if hasattr(k, 'get_id') else k
+            if key not in _cache:
+                outs = list(C.fresh_value(I, st, ety, 'item'))
+                _cache[key] = (outs[0][1], k)
+            return _cache[key][0]
+    else:
+        n, elem = iter_model(I, st, it)
     tnames = [x.id for x in ast.walk(node.target) if isinstance(x, ast.Name)]
     pre_target = {t: st.env.get(t, UNBOUND) for t in tnames}
     ghosts = eval_ghosts(I, spec, st, scope)
@@ -336,6 +357,10 @@ def for_with_invariant(I, node, spec, it, st):
         for st2, sg in I.assign_target(node.target, elem(kv), st1):
             if sg is not NORMAL:
                 yield st2, sg
+                continue
+            for ea in spec.get('elements_assume', []):
+                C.assume_expr(I, ea, _bindings(st2), st2, scope)
+            if not I.feasible(st2.pc):
                 continue
             before = _snapshot_frame(st2)
             for st3, sig in I.ex(node.body, st2):
